@@ -37,6 +37,8 @@ TEXT = gen_model.profile(style_density=(0, 2), max_nodes=36, fanout=3, br_styles
                          time_shifts=[Fraction(0), Fraction(0), Fraction(0), Fraction(59), Fraction(3599), Fraction(86399), Fraction(359990)])
 TEXT_PRESERVE = gen_model.profile(**dict(TEXT, preserve=True, max_nodes=24))
 SUBMS = gen_model.profile(**dict(TEXT, arbitrary_times=True, max_nodes=14, time_density=3, time_shifts=None))
+# text containing the characters that WebVTT must escape (SubRip has no escaping: WebVTT configurations only)
+MARKUP = gen_model.profile(**dict(TEXT, text_markup=True, max_nodes=16, ruby=False, time_shifts=None))
 SHRINK = gen_model.case_simplifications("spec")
 
 SRT_CFGS = {"srt": None, "srt-noformat": SRTWriterConfiguration(text_formatting=False)}
@@ -52,11 +54,12 @@ VTT_NAMES = ["vtt-%s-%s-%s" % (a, b, c) for a in "Ll" for b in "Aa" for c in "Ii
 
 def shape(spec, mode):
   """mode 1: top-level divs are dealt round-robin to the regions (several regions hold content at once);
-  mode 2: everything under the first region (several div / p under one region)"""
+  mode 2: everything under the first region (several div / p under one region);
+  mode 3: at least three regions, divs dealt to every other one (idle regions listed between regions that hold text)"""
   if spec["body"] is None or mode == 0:
     return spec
-  if mode == 1:
-    while len(spec["regions"]) < 2:
+  if mode in (1, 3):
+    while len(spec["regions"]) < (2 if mode == 1 else 3):
       spec["regions"].append(dict(kind="region", id="rx%d" % len(spec["regions"]), begin=None, end=None, region=None, styles={},
                                   anims=[], kids=[], space="default", lang=""))
   regs = [r["id"] for r in spec["regions"]]
@@ -66,6 +69,11 @@ def shape(spec, mode):
     n["region"] = None
   if mode == 2:
     spec["body"]["region"] = regs[0]
+  elif mode == 3:
+    # every other region stays idle (no content) between regions that hold text
+    used = regs[::2]
+    for i, d in enumerate(spec["body"]["kids"]):
+      d["region"] = used[i % len(used)]
   else:
     for i, d in enumerate(spec["body"]["kids"]):
       d["region"] = regs[i % len(regs)]
@@ -88,11 +96,14 @@ EPS = [Fraction(1, 3000), Fraction(1, 1001), Fraction(1, 2000), Fraction(3, 5000
 OFFSETS = [Fraction(0), Fraction(0), Fraction(3, 5000), Fraction(1, 3000), Fraction(4, 10000), Fraction(7, 10000)]
 
 
-def cases(prof, sub_ms=False):
+def cases(prof, sub_ms=False, cfgs=None):
   def strat(tier):
     eps = st.sampled_from(EPS) if sub_ms else st.none()
+    if cfgs is not None:
+      return st.builds(lambda spec, mode, cfg: {"spec": shape(spec, mode), "cfg": cfg}, gen_model.docspecs(prof),
+                       st.sampled_from([0, 1, 1, 2]), st.sampled_from(cfgs))
     return st.builds(lambda spec, mode, cfg, e, o: {"spec": tiny_times(shape(spec, mode), e, o), "cfg": cfg}, gen_model.docspecs(prof),
-                     st.sampled_from([0, 1, 1, 1, 2]), st.sampled_from(list(SRT_CFGS) + VTT_NAMES + ["srt", "vtt-l-a-I"]), eps,
+                     st.sampled_from([0, 1, 1, 1, 2, 3]), st.sampled_from(list(SRT_CFGS) + VTT_NAMES + ["srt", "vtt-l-a-I"]), eps,
                      st.sampled_from(OFFSETS))
   return strat
 
@@ -136,6 +147,8 @@ def check(case, res):
     res.label("ruby-base-visible")
   if exp and exp[-1].unbounded:
     res.label("unbounded-final-interval")
+  if any(ch.c in "&<>" for c in exp for l in c.lines for ch in l):
+    res.label("text-with-markup-characters")
   if any(not c.exact for c in exp):
     res.label("preserve-text-visible")
   try:
@@ -162,6 +175,8 @@ PARTS = {
                                 "unbounded-final-interval", "cfg:srt", "cfg:vtt-L-A-I")),
   "preserve": Part("preserve", check, strategy=cases(TEXT_PRESERVE), n=(320, 16000), shrinker=SHRINK,
                    required_labels=("preserve-text-visible",)),
+  "markup": Part("markup", check, strategy=cases(MARKUP, cfgs=VTT_NAMES), n=(320, 16000), shrinker=SHRINK,
+                 required_labels=("text-with-markup-characters",)),
   "subms": Part("subms", check, strategy=cases(SUBMS, True), n=(480, 24000), shrinker=SHRINK,
                 required_labels=("sub-millisecond-interval-without-cue-among-others", "sub-millisecond-interval-crossing-a-millisecond")),
 }
